@@ -205,11 +205,113 @@ def outline_builtins(s):
     return s[:bc + 1] + '\n\n' + '\n'.join(out) + s[bc + 1:], names
 
 
+def outline_filters(s):
+    """X19: the identifier iterators of `Node` are `SOURCE.filter_map(|p| BODY)` with SOURCE one of `self.iter()`
+    (NodeIter, under contract) and `self.iter_operators_mut()`.  Verus rejects iterator adapters and closures, so each
+    closure body is copied mechanically into an associated function `NAME__filter(p: &T) -> Option<R> { BODY }` placed
+    right after the iterator function, with T = Node for `self.iter()` and T = Operator for `self.iter_operators_mut()`
+    and R the iterator's item type.  For the `_mut` variants the copy takes `&Operator` and returns `Option<&String>`:
+    mutability is dropped (the body text is unchanged and type-checks for both).  What stays unverified: the
+    `filter_map` adapter itself (std) and, for the `_mut` variants, the traversal `OperatorIterMut`.
+    A function named iter_*identifiers* that does not have this shape is left alone (its contract section is then
+    lost and C14 is UNDECIDED)."""
+    names = []
+    pos = 0
+    while True:
+        m = code_mask(s)
+        mm = None
+        for cand in re.finditer(r'pub fn (iter_\w*identifiers\w*)\(&(mut )?self\) -> impl Iterator<Item = (&str|&mut String)> \{', s[pos:]):
+            if m[pos + cand.start()]:
+                mm = cand
+                break
+        if not mm:
+            break
+        name = mm.group(1)
+        bo = pos + mm.end() - 1
+        bc = match_close(s, m, bo)
+        body = s[bo + 1:bc]
+        mb = code_mask(body)
+        pos = bc + 1
+        fm = None
+        for cand in re.finditer(r'\.filter_map\(\|(\w+)\|\s*', body):
+            if mb[cand.start()]:
+                fm = cand
+                break
+        if not fm:
+            continue
+        source = re.sub(r'\s+', '', body[:fm.start()])
+        k = body.index('(', fm.start())
+        close = match_close(body, mb, k, '(', ')')
+        if body[close + 1:].strip() != '':
+            continue
+        text = body[fm.end():close].rstrip()
+        if source == 'self.iter()':
+            pty = '&Node'
+        elif source == 'self.iter_operators_mut()':
+            pty = '&Operator'
+        else:
+            continue
+        rty = {'&str': '&str', '&mut String': '&String'}[mm.group(3)]
+        if not text.startswith('{'):
+            text = '{\n            ' + text + '\n        }'
+        gen = '\n\n    // [extract] X19 filter closure of %s (source iterator: %s)\n    pub fn %s__filter(%s: %s) -> Option<%s> %s\n' % (name, source, name, fm.group(1), pty, rty, text)
+        s = s[:bc + 1] + gen + s[bc + 1:]
+        pos = bc + 1 + len(gen)
+        names.append(name)
+    return s, names
+
+
+ERASE_RULES = [
+    # (regex, replacement, minimum matches) applied to the copied text of OperatorIterMut only
+    (r'\bOperatorIterMut\b', 'OperatorIterErased', 4),
+    (r'\bIterMut<', 'Iter<', 1),
+    (r'\.iter_mut\(\)', '.iter()', 2),
+    (r"&'a mut ", "&'a ", 2),
+    (r'&mut result\.operator', '&result.operator', 1),
+]
+
+
+def erase_operator_iter_mut(s):
+    """X20: `OperatorIterMut` (the traversal behind every `iter_*_mut`) hands out `&'a mut Operator` from
+    `slice::IterMut`, which Verus cannot express.  Its three items (struct, `new`, `impl Iterator`) are copied
+    mechanically with mutability of the *borrowed tree* erased -- `IterMut<` -> `Iter<`, `.iter_mut()` -> `.iter()`,
+    `&'a mut ` -> `&'a `, `&mut result.operator` -> `&result.operator` -- under the name `OperatorIterErased`, placed
+    after the original.  Everything else (the loop, the stack discipline, `&mut self`, `last_mut`, `pop`, `push`) is
+    unchanged text, so the copy visits the same nodes in the same order; that mutable and shared borrows do not
+    differ in control flow, and that the mutable borrows are sound, is left to rustc.  The original stays unverified."""
+    m = code_mask(s)
+    pieces = []
+    end = None
+    for pat in (r"^pub struct OperatorIterMut<'a> \{", r"^impl<'a> OperatorIterMut<'a> \{", r"^impl<'a> Iterator for OperatorIterMut<'a> \{"):
+        try:
+            st, ls, bo, bc = item_span(s, m, pat)
+        except Lost:
+            return s, 0
+        pieces.append(s[st:bc + 1])
+        end = max(end or 0, bc + 1)
+    text = '\n\n'.join(pieces)
+    total = 0
+    for rx, rep, minimum in ERASE_RULES:
+        text, n = re.subn(rx, rep, text)
+        if n < minimum:
+            return s, 0
+        total += n
+    if re.search(r'\bmut\b', re.sub(r'&mut self|let mut result|last_mut|//[^\n]*|///[^\n]*', '', text)):
+        # some other mutable access to the tree appeared: the erased copy would not be faithful
+        return s, 0
+    gen = '\n\n// [extract] X20 mutability-erased copy of OperatorIterMut (see tools/extract.py)\n' + text + '\n'
+    return s[:end] + gen + s[end:], total
+
+
 def extract(repo):
     flat = flatten(os.path.join(repo, 'src', 'lib.rs'))
     s, counts = instantiate(flat)
     s, names = outline_builtins(s)
     counts['X17'] = len(names)
+    s, fnames = outline_filters(s)
+    counts['X19'] = len(fnames)
+    s, n20 = erase_operator_iter_mut(s)
+    counts['X20'] = n20
     return s, counts
 
 
